@@ -203,6 +203,18 @@ func genC07(g *Gen) {
 			}
 		}
 	}
+	// widening: a message whose own Marshal fails: (0, that error), nothing written, whatever the writer
+	// would have done and whatever the version (even one longer than 16 bytes: newHeader is never reached)
+	for _, vl := range []int{-1, 0, 5, 16, 17, 40} {
+		for _, sc := range []string{c07Script(), c07Script([2]int64{0, 1}), c07Script([2]int64{10, 1}), c07Script([2]int64{32, 0}, [2]int64{1, 1})} {
+			ver := ""
+			if vl > 0 {
+				ver = string(g.R.Bytes(vl, []byte("ab.1")))
+			}
+			g.Stat("marshal-encode-error")
+			g.Do("pbcmpl.Marshal/encerr", L(c06MsgText(vl >= 0, ver, c06Payloadgen(g.R, g.R.Range(0, 40))), sc), fmt.Sprintf("encerr/v%d/s%d", vl, len(sc)))
+		}
+	}
 	// a version longer than 16 bytes panics by design
 	for _, vl := range []int{17, 18, 40} {
 		g.Do("pbcmpl.Marshal/faulty", L("0", c06MsgText(true, string(g.R.Bytes(vl, []byte("ab"))), []byte("x")), c07Script()), fmt.Sprintf("wf/longver%d", vl))
